@@ -189,7 +189,8 @@ def e_keyword_names(doc, rnd):
 
 def e_extends_mixins(doc, rnd):
     doc["structures"] += [
-        {"name": "VerifBaseOptions", "properties": [prop("baseFlag", B, True)], "mixins": [ref("WorkDoneProgressOptions")]},
+        # the base carries a non-empty literal: every descendant inherits a property whose type is an anonymous structure
+        {"name": "VerifBaseOptions", "properties": [prop("baseFlag", B, True), prop("baseDetails", lit([prop("reason", S), prop("code", I, True)]), True)], "mixins": [ref("WorkDoneProgressOptions")]},
         {"name": "VerifMidOptions", "properties": [prop("mid", S, True)], "extends": [ref("VerifBaseOptions")]},
         {"name": "VerifLeafOptions", "properties": [prop("leaf", U)], "extends": [ref("VerifMidOptions")], "mixins": [ref("StaticRegistrationOptions")]},
         # a mixin that itself has a mixin (the committed model has only leaf mixins)
